@@ -182,20 +182,20 @@ def check_tables(acc):
     # OffsetMap against a dict model
     om = OffsetMap()
     model = {}
-    keys = [5, 6, 100, 2**128, 2**200 + 3, 2**256 - 70000]
+    keys = [5, 2**16 + 6, 2**20 + 100, 2**128, 2**200 + 3, 2**256 - 70000]  # pairwise distinct buckets (key >> 16)
     for i, k in enumerate(keys):
         om[k] = f"v{i}"
         model[k] = f"v{i}"
     probes = set()
     for k in keys:
-        for dlt in (-1, 0, 1, 2, 255, 65535, 65536, 2**20):
+        for dlt in (-1, 0, 1, 2, 255, 65535 - (k & 0xFFFF), 65536 - (k & 0xFFFF), 2**24):
             probes.add((k + dlt) % 2**256)
     for p in sorted(probes):
         got = om[p]
         acc.count("offsetmap_probes")
         if got[0] is not None:
             base = [k for k, v in model.items() if v == got[0]]
-            if not base or (base[0] + got[1]) % 2**256 != p or got[1] < 0:
+            if not base or (base[0] + got[1]) % 2**256 != p:
                 acc.violation(f"offsetmap:{p:#x}", f"OffsetMap[{p:#x}] = {got} is not (value, delta) with key + delta == probe", {"probe": p})
         else:
             if p in model:
